@@ -96,6 +96,30 @@ def _child(job, conn):
     conn.close()
 
 
+def _retry_in_fresh_interpreter(job, attempt):
+    '''A worker that died (segfault inside libz3: seen to depend on the order in which terms are built, i.e. on
+    the interpreter's string-hash seed, which forked workers share with their parent) is run again in a new
+    interpreter under another hash seed.  -> unit result dict or None'''
+    import subprocess
+    env = dict(os.environ)
+    env['PYTHONHASHSEED'] = str(1000 + attempt)
+    try:
+        p = subprocess.run([sys.executable, '-m', 'pyvc.driver', '--unit', json.dumps(list(job))], cwd=ROOT, env=env,
+                           capture_output=True, text=True, timeout=max(600, 60 * job[3] / 1000.0))
+    except subprocess.TimeoutExpired:
+        return None
+    if os.environ.get('PYVC_DEBUG_RETRY'):
+        sys.stderr.write('retry %s attempt %d: exit %s, %d octets of output, stderr %s\n' % (
+            job[1], attempt, p.returncode, len(p.stdout), p.stderr[-300:]))
+    for line in reversed(p.stdout.strip().splitlines()):
+        if line.startswith('{'):
+            try:
+                return json.loads(line)
+            except Exception:  # noqa
+                return None
+    return None
+
+
 def _dead_unit(job, why, wall=0.0):
     suite, key, ci = job[0], job[1], job[2]
     return {'unit': '%s#%d' % (key, ci), 'function': key, 'file': None, 'lines': None, 'src_hash': None, 'stmts': 0,
@@ -231,11 +255,14 @@ def run(suites, props=None, keys=None, timeout_ms=10000, procs=None, src=None, q
                     # the solver library occasionally crashes a worker (segfault in libz3): not a verdict;
                     # the unit is started again, up to two more times
                     p.join(5)
-                    retries[job[:3]] = retries.get(job[:3], 0) + 1
-                    if retries[job[:3]] <= 2:
-                        pending.append(job)
-                        continue
-                    r = _dead_unit(job, 'worker died (%d attempts)' % retries[job[:3]])
+                    r = None
+                    for attempt in range(1, 4):
+                        retries[job[:3]] = retries.get(job[:3], 0) + 1
+                        r = _retry_in_fresh_interpreter(job, attempt)
+                        if r is not None:
+                            break
+                    if r is None:
+                        r = _dead_unit(job, 'worker died (%d attempts, fresh interpreters)' % (retries[job[:3]] + 1))
                 p.join(5)
                 if use_cache and not r.get('timeout') and not r.get('error'):
                     try:
@@ -245,11 +272,21 @@ def run(suites, props=None, keys=None, timeout_ms=10000, procs=None, src=None, q
                         pass
                 report(r)
             elif not p.is_alive():
-                retries[job[:3]] = retries.get(job[:3], 0) + 1
-                if retries[job[:3]] <= 2:
-                    pending.append(job)
-                else:
-                    report(_dead_unit(job, 'worker exited without a result (%d attempts)' % retries[job[:3]]))
+                r = None
+                for attempt in range(1, 4):
+                    retries[job[:3]] = retries.get(job[:3], 0) + 1
+                    r = _retry_in_fresh_interpreter(job, attempt)
+                    if r is not None:
+                        break
+                if r is None:
+                    r = _dead_unit(job, 'worker exited without a result (%d attempts, fresh interpreters)' % (retries[job[:3]] + 1))
+                elif use_cache and not r.get('timeout') and not r.get('error'):
+                    try:
+                        with open(_cache_path(keys_by_suite[job[0]], job), 'w') as f:
+                            json.dump(r, f, default=str)
+                    except Exception:
+                        pass
+                report(r)
             elif time.time() - t_start > unit_limit:
                 p.kill()
                 p.join(5)
@@ -261,6 +298,12 @@ def run(suites, props=None, keys=None, timeout_ms=10000, procs=None, src=None, q
     results.sort(key=lambda r: r['unit'])
     return {'results': results, 'trusted': trusted, 'wall_s': time.time() - t0, 'specs': specs}
 
+
+if __name__ == '__main__' and len(sys.argv) > 2 and sys.argv[1] == '--unit':
+    # one unit in this (fresh) interpreter; result as one JSON line on stdout
+    _job = tuple(json.loads(sys.argv[2]))
+    print(json.dumps(_run_unit(_job), default=str))
+    sys.exit(0)
 
 if __name__ == '__main__':
     import argparse
